@@ -436,13 +436,34 @@ def addr_list_value(st, v):
 
 
 # =========================================================== (c) get_body_content ==
-def returned_names(fnode):
-    """Names of the tuple returned by the last `return a, b` of the real function."""
+def returned_exprs(fnode):
+    """Element expressions of the tuple returned by the last `return a, b` of the real function: names, or effect-free reads of
+    a local (`d["k"]`, `d[CONST]`, `o.attr`)."""
     rets = [n for n in ast.walk(fnode) if isinstance(n, ast.Return) and isinstance(n.value, ast.Tuple)]
     rets.sort(key=lambda n: n.lineno)
-    if not rets or not all(isinstance(e, ast.Name) for e in rets[-1].value.elts):
-        raise Unsupported("return of a tuple of names expected")
-    return [e.id for e in rets[-1].value.elts]
+
+    def plain(e):
+        if isinstance(e, ast.Name):
+            return True
+        if isinstance(e, ast.Subscript):
+            return plain(e.value) and isinstance(e.slice, (ast.Constant, ast.Name))
+        return isinstance(e, ast.Attribute) and plain(e.value)
+    if not rets or not all(plain(e) for e in rets[-1].value.elts):
+        raise Unsupported("return of a tuple of names / plain reads of locals expected")
+    return list(rets[-1].value.elts)
+
+
+def read_in(lc, e):
+    """Value of the effect-free expression e in the state the invariant looks at."""
+    if isinstance(e, ast.Name):
+        return lc[e.id]
+    mark = len(lc.ex.sinks[-1]) if lc.ex.sinks else 0
+    r = lc.ex.ev(e, lc.st.fork())
+    if lc.ex.sinks:
+        del lc.ex.sinks[-1][mark:]
+    if len(r) != 1 or type(r[0][1]) is not VStr:
+        raise M.ShapeUnknown(f"`{ast.unparse(e)}` is not a single str value here: {[x[1] for x in r]!r}"[:200])
+    return r[0][1]
 
 
 def first_stable(m, F):
@@ -473,9 +494,9 @@ def body_contract():
 
     def inv(lc):
         m = lc.entry.lookup("message").t
-        pn, hn = returned_names(lc.st.frame.fnode)
+        pe, he = returned_exprs(lc.st.frame.fnode)
         i = lc.i
-        return M.ConjA([("plain", lc[pn].t == M.FIRST_P(m, i)), ("html", lc[hn].t == M.FIRST_H(m, i))],
+        return M.ConjA([("plain", read_in(lc, pe).t == M.FIRST_P(m, i)), ("html", read_in(lc, he).t == M.FIRST_H(m, i))],
                        defs=[M.first_def(m, i), M.first_def(m, i + 1)])
 
     def e_plain(c):
@@ -863,9 +884,11 @@ def eml_contract():
     def inv(lc):
         """One invariant for every loop of the body, by what the loop walks: over mail.attachments the list built so far is the
         specified attachments prefix; over an address list of the mail it is the specified recipients prefix; other loops: True."""
-        mail = M.MAILOF(M.bytes_term(lc.entry.lookup("payload")))
         t = walked_length(lc.seq)
         what = t.decl().name() if t is not None and z3.is_app(t) else ""
+        # the mail is the one whose sequence is walked (name-free: the loop may sit in a helper that never sees `payload`); the
+        # postconditions compare with the parse of `payload`, so walking another mail's entries cannot verify
+        mail = t.arg(0) if what in ("mail_attachments_n", "mail_addresses_n") else None
         i = lc.i
         if what == "mail_attachments_n":
             n, el = built_list(lc, None, ("obj", "EmailAttachment"))
